@@ -281,6 +281,42 @@ def rule_r2(repo, run, T):
                           "generated C does not compile" % (fn, " ".join(req), hfun[fn], sorted(have)),
                           table.loc(e.raw), sample=dict(entry=name, calls=fn, c_helper=req))
     run.floor(R, "helper calls in c_* entries", n, 20)
+    # Python statements name their helpers through {hnamefunc<i>}, the i-th name of c_helper (prefixed with
+    # PY_helper_prefix): an index beyond c_helper, or a helper called by a hard-coded name, is never emitted
+    py = T["py"]
+    k = 0
+    PY_CLAUSES = ("declare", "post_declare", "post_parse", "pre_call", "post_call", "cleanup", "fail", "arg_call",
+                  "declare_capsule", "post_call_capsule", "fail_capsule", "declare_keep", "post_call_keep", "fail_keep",
+                  "getter", "setter", "arg_declare")
+    seen = set()
+    for lang in ("c", "c++"):
+        for name, e in sorted(py.resolve_all(lang).items()):
+            if name.startswith("base_"):
+                continue  # abstract: the entries built on it name the helper
+            req = str(e.get("c_helper") or "").split()
+            text = "\n".join(l for c in PY_CLAUSES for l in e.lines(c))
+            for clause in PY_CLAUSES:
+                fld = clause + "_helper" if clause in ("getter", "setter") else "c_helper"
+                creq = str(e.get(fld) or "").split()
+                for m in re.finditer(r"\{hnamefunc(\d+)\}", "\n".join(e.lines(clause))):
+                    if (name, clause, m.group(0)) in seen:
+                        continue
+                    seen.add((name, clause, m.group(0)))
+                    k += 1
+                    run.check(R, "wrapp.py_statements[%s].%s:%s" % (name, clause, m.group(0)), int(m.group(1)) < len(creq),
+                              "%s uses %s but %s=%r names %d helper(s): the field is not set (KeyError, or the helper of "
+                              "another argument)" % (clause, m.group(0), fld, " ".join(creq), len(creq)), py.loc(e.raw))
+            for m in re.finditer(r"\bSHROUD_(\w*(?:\{\w+\}\w*)*)\s*(?:\t\s*)?\(", text):
+                hname = m.group(1)
+                if hname in ("UNUSED",) or (name, hname) in seen:
+                    continue
+                seen.add((name, hname))
+                k += 1
+                run.check(R, "wrapp.py_statements[%s]:SHROUD_%s" % (name, hname), False,
+                          "entry calls the helper SHROUD_%s by a hard-coded name: nothing requests the helper (c_helper=%r), "
+                          "so its definition is not written to the file, and PY_helper_prefix is ignored" % (hname, " ".join(req)),
+                          py.loc(e.raw))
+    run.floor(R, "helper uses in py_* entries", k, 15)
 
 
 CXX_ONLY_GROUPS = ("string", "vector")
@@ -1096,6 +1132,123 @@ def rule_r15(repo, run, T):
         raise AnalysisError("C05.R15: assignment of F_C_pure_clause not found")
 
 
+def rule_r16(repo, run, T):
+    R = run.rule("C05.R16", "an emitter that writes functions of more than one C return type (PyObject* methods and int "
+                            "tp_init) returns its fixed error value through the per-kind field, or under a test of the kind")
+    wp = repo.module("wrapp")
+    lit = re.compile(r"\breturn\s+(\{nullptr\}|NULL|nullptr|-1|0)\s*;")
+    n = nf = 0
+    for fn in wp.functions().values():
+        asg = [a for a in ast.walk(fn) if isinstance(a, ast.Assign) and isinstance(a.targets[0], ast.Attribute)
+               and a.targets[0].attr == "PY_error_return"]
+        if len(set(str(wp.seg(a.value)) for a in asg)) < 2:
+            continue
+        nf += 1
+        kinds = set()
+        for a in asg:
+            for t, pol in pyflow.dominating_tests(a, stop=fn):
+                kinds.add(str(wp.seg(t)))
+        for c in ast.walk(fn):
+            if isinstance(c, ast.Constant) and isinstance(c.value, str) and lit.search(c.value):
+                if isinstance(getattr(c, "_parent", None), ast.Expr):
+                    continue  # docstring
+                n += 1
+                tests = set(str(wp.seg(t)) for t, pol in pyflow.dominating_tests(c, stop=fn))
+                m = lit.search(c.value)
+                run.check(R, "wrapp.%s:%s" % (fn._qualname, re.sub(r"\s+", " ", m.group(0))), bool(tests & kinds),
+                          "`%s` is emitted for every kind of wrapper (tests on the path: %s; the kind is decided by %s): in a "
+                          "tp_init function, which returns int, `return nullptr;` does not compile - use {PY_error_return}"
+                          % (m.group(0), sorted(tests), sorted(kinds)), wp.loc(c))
+    run.floor(R, "emitters with a per-kind error return", nf, 2)
+    run.floor(R, "literal returns in them", n, 1)
+
+
+def rule_r17(repo, run, T):
+    R = run.rule("C05.R17", "helpers are stored under names built from flat_name: typemaps of distinct C++ types have "
+                            "distinct flat names, also when a typemap is cloned from another")
+    types = T["types"]
+    seen = {}
+    n = 0
+    for name, t in sorted(types.native().items()):
+        fl, cx = t.get("flat_name"), t.get("cxx_type")
+        if not fl or not cx:
+            continue
+        n += 1
+        other = seen.setdefault(str(fl), (name, str(cx)))
+        run.check(R, "typemap[%s].flat_name" % name, other[1] == str(cx),
+                  "flat_name %r is also the flat name of %s (%s): the per-type helpers (copy_array_*, to_PyList_*, "
+                  "create_from_PyObject_vector_*) of one replace those of the other, with the wrong element type"
+                  % (fl, other[0], other[1]), types.loc(name))
+    run.floor(R, "native typemaps with a flat name", n, 20)
+    tm = repo.module("typemap")
+    cf = tm.func("Typemap.compute_flat_name")
+    only_if_unset = any(isinstance(i, ast.If) and "self.flat_name" in tm.seg(i.test) for i in ast.walk(cf))
+    nclone = 0
+    for mn in ("typemap", "ast", "declast", "generate"):
+        m = repo.module(mn)
+        for q, fn in m.functions().items():
+            for a in ast.walk(fn):
+                if not (isinstance(a, ast.Assign) and isinstance(a.targets[0], ast.Name) and isinstance(a.value, ast.Call)
+                        and isinstance(a.value.func, ast.Attribute) and a.value.func.attr == "clone_as"):
+                    continue
+                v = a.targets[0].id
+                sets = {}
+                for b in ast.walk(fn):
+                    if isinstance(b, ast.Assign) and isinstance(b.targets[0], ast.Attribute) and pyflow.is_name(b.targets[0].value, v):
+                        sets.setdefault(b.targets[0].attr, b)
+                if "cxx_type" not in sets:
+                    continue
+                nclone += 1
+                if "typedef" in sets:
+                    continue  # an alias of the same C++ type: the helpers of the original are the helpers of the alias
+                calls = [c for c in ast.walk(fn) if isinstance(c, ast.Call) and isinstance(c.func, ast.Attribute)
+                         and c.func.attr == "compute_flat_name" and pyflow.is_name(c.func.value, v)]
+                ok = "flat_name" in sets or (calls and not only_if_unset)
+                run.check(R, "%s.%s:%s.flat_name" % (mn, q, v), bool(ok),
+                          "%s is cloned from another typemap and given a C++ type of its own, but keeps the flat_name of the "
+                          "original (compute_flat_name only fills an unset name): the helpers generated for it are stored "
+                          "under the original's helper names and replace them (e.g. create_from_PyObject_vector_int taking "
+                          "std::vector<Color> &)" % v, m.loc(a))
+    run.floor(R, "cloned typemaps with their own cxx_type", nclone, 2)
+
+
+def rule_r18(repo, run, T):
+    R = run.rule("C05.R18", "header lists (the library's own C++ header among them) are written outside `extern \"C\"`")
+    n = 0
+    for mn in ("wrapc", "wrapl", "wrapp"):
+        m = repo.module(mn)
+        for q, fn in sorted(m.functions().items()):
+            events = []
+            for c in ast.walk(fn):
+                if isinstance(c, ast.Call):
+                    name = (pyflow.call_name(c) or "").split(".")[-1]
+                    if name == "extern_C" and len(c.args) == 2 and pyflow.const_str(c.args[1]) in ("begin", "end"):
+                        events.append((c.lineno, c.col_offset, "open" if pyflow.const_str(c.args[1]) == "begin" else "close", c))
+                    elif name == "write_headers":
+                        events.append((c.lineno, c.col_offset, "headers", c))
+                elif isinstance(c, ast.Constant) and isinstance(c.value, str):
+                    if re.search(r'extern "C" \{', c.value):
+                        events.append((c.lineno, c.col_offset, "open", c))
+                    elif re.match(r'\s*\}(\s*//\s*extern "C")?\s*$', c.value) and any(e[2] == "open" for e in events):
+                        events.append((c.lineno, c.col_offset, "close", c))
+            if not any(e[2] == "headers" for e in events) or not any(e[2] == "open" for e in events):
+                continue
+            events.sort(key=lambda e: e[:2])
+            depth = 0
+            for ln, col, kind, node in events:
+                if kind == "open":
+                    depth += 1
+                elif kind == "close":
+                    depth = max(0, depth - 1)
+                else:
+                    n += 1
+                    run.check(R, "%s.%s:write_headers" % (mn, q), depth == 0,
+                              "the include list is written after `extern \"C\" {` was opened: the library's C++ header (and "
+                              "<string>, <vector> behind it) gets C linkage - `template with C linkage` when the header is "
+                              "compiled on its own", m.loc(node))
+    run.floor(R, "header lists in functions that open extern \"C\"", n, 5)
+
+
 def run(repo, run, tier):
     tables.check_model_assumptions(repo)
     T = dict(
@@ -1120,6 +1273,9 @@ def run(repo, run, tier):
     rule_r13(repo, run, T)
     rule_r14(repo, run, T)
     rule_r15(repo, run, T)
+    rule_r16(repo, run, T)
+    rule_r17(repo, run, T)
+    rule_r18(repo, run, T)
     run.assumptions.extend([
         "field universe is an over-approximation (any attribute store / Scope keyword in the emitter's "
         "modules defines the field): a report means no assignment exists at all",
